@@ -144,7 +144,9 @@ def np_apply(form, args):
             '(a+b).dot(c)': lambda: np.dot(np_apply('add', [a, b]), c),
             'a.dot(b)+c': lambda: np_apply('add', [np.dot(a, b), c]),
             'a.dot(b).dot(c)': lambda: np.dot(np.dot(a, b), c),
-            'a.dot(b+c)': lambda: np.dot(a, np_apply('add', [b, c]))}[form]()
+            'a.dot(b+c)': lambda: np.dot(a, np_apply('add', [b, c])),
+            'c+a.dot(b)': lambda: np_apply('add', [c, np.dot(a, b)]), 'c*a.dot(b)': lambda: np_apply('mul', [c, np.dot(a, b)]),
+            'a.dot(b)-c': lambda: np_apply('sub', [np.dot(a, b), c]), 'a.dot(b)/c': lambda: np_apply('div', [np.dot(a, b), c])}[form]()
 
 
 def valid(eq, timeout_ms=5000):
@@ -333,6 +335,15 @@ def extract(bound):
         shutil.rmtree(d, ignore_errors=True)
 
 
+def _file_digest(rel):
+    import hashlib
+    try:
+        with open(os.path.join(REPO, rel), 'rb') as f:
+            return hashlib.sha256(f.read()).hexdigest()[:16]
+    except OSError:
+        return None
+
+
 def run(prop, cfg, tier, seed):
     bound = 5 if tier == 'thorough' else 3
     t0 = time.time()
@@ -371,7 +382,7 @@ def run(prop, cfg, tier, seed):
     infos = {}
     from verif.pyvc import binder
     for fl in FILES:
-        infos['c10:' + fl] = dict(file=fl, line=1, digest=binder.file_digest(os.path.join(REPO, fl)) if hasattr(binder, 'file_digest') else None,
+        infos['c10:' + fl] = dict(file=fl, line=1, digest=_file_digest(fl),
                                   n=sum(f['obligations'] for f in fams.values()) if fl == FILES[0] else 0)
     with open(os.path.join(ROOT, 'replays', 'C10.failing.json'), 'w') as fh:
         json.dump(failing, fh)
